@@ -85,7 +85,7 @@ def random_config(rng, k):
     o = {"solver": "mjSOL_NEWTON" if (k % 4 != 3) else "mjSOL_CG", "cone": c11.CONES[k % 2],
          "jacobian": ["mjJAC_DENSE", "mjJAC_SPARSE"][(k // 2) % 2], "iterations": 200, "noslip": 0, "tolerance": 0.0,
          "integrator": INTEGRATORS[int(rng.integers(0, 3))]}
-    o["flags"] = [fl for fl, p in (("noisland", 0.4), ("nowarmstart", 0.2), ("diagexact", 0.15), ("noeulerdamp", 0.15)) if rng.random() < p]
+    o["flags"] = [fl for fl, p in (("noisland", 0.4), ("nowarmstart", 0.2), ("diagexact", 0.15), ("noeulerdamp", 0.15), ("noconstraint", 0.12)) if rng.random() < p]
     if rng.random() < 0.3:
         o["impratio"] = float(np.exp(rng.uniform(np.log(0.3), np.log(30))))
     if rng.random() < 0.3:
@@ -100,6 +100,9 @@ def apply_config(m, o, base):
     m.opt["ls_tolerance"] = 1e-6
     if "noeulerdamp" in o["flags"]:
         m.opt["disableflags"] = int(m.opt["disableflags"]) | int(E.mjDSBL_EULERDAMP)
+    if "noconstraint" in o["flags"]:
+        # a configuration without any constraint row, interleaved with constrained ones on the same mjData (dirty-twin comparison)
+        m.opt["disableflags"] = int(m.opt["disableflags"]) | int(E.mjDSBL_CONSTRAINT)
     if "timestep" in o:
         m.opt["timestep"] = o["timestep"]
     m.opt["enableflags"] = int(m.opt["enableflags"]) & ~int(E.mjENBL_INVDISCRETE) & ~int(E.mjENBL_FWDINV)
@@ -182,7 +185,7 @@ def compare_inverse(m, d2, F, P, viol, label, extra_tol=None, round_tol=None):
     return True
 
 
-def check_case(L, m, d1, d2, T, state, o, P, witness):
+def check_case(L, m, d1, d2, T, state, o, P, witness, dirty=None):
     """returns (converged, nefc)"""
     sig = int(E.mjSTATE_INTEGRATION)
     nv = m.n("nv")
@@ -237,6 +240,20 @@ def check_case(L, m, d1, d2, T, state, o, P, witness):
     L.call("mj_inverse", m, d2, ret=None)
     if not compare_inverse(m, d2, F, P, viol, "continuous", extra_tol=None, round_tol=F["round_f"]):
         return True, nefc
+    # ---- the same inverse on a data that is never reset and has computed other (constrained) states before: mj_inverse is a function
+    # of the state, the inputs and qacc only, so the result must equal the reset twin's bit for bit (stale forces must not leak in)
+    if dirty is not None:
+        dirty.set_state(state, sig)
+        dirty["qacc"][:] = F["qacc"]
+        L.call("mj_inverse", m, dirty, ret=None)
+        P.count("dirty_twin_inverses")
+        if nefc == 0:
+            P.count("dirty_twin_inverses_without_constraints")
+        for fld in ("qfrc_inverse", "qfrc_constraint"):
+            if np.array(dirty[fld]).tobytes() != np.array(d2[fld]).tobytes():
+                viol("inverse-on-used-data-differs-from-inverse-on-reset-data:" + fld, nefc=nefc,
+                     used=np.array(dirty[fld]).tolist()[:12], reset=np.array(d2[fld]).tolist()[:12])
+                return True, nefc
 
     # ---- built-in comparison
     before = (np.array(d1["qfrc_constraint"]), np.array(d1.arena("efc_force")).ravel()[:nefc].copy(), np.array(d1["qacc"]))
@@ -343,6 +360,7 @@ def worker(c):
         T = None
         P.count("scenes_without_reference_tree")
     d1, d2 = m.make_data(), m.make_data()
+    d3 = m.make_data()     # never reset: carries the results of earlier cases (see the dirty-twin comparison in check_case)
     P.count("scenes")
     P.count("scenes_" + c["kind"])
     sig = int(E.mjSTATE_INTEGRATION)
@@ -369,12 +387,13 @@ def worker(c):
             witness = {"scene": name, "xml": c.get("_xml"), "state": s, "conf": k, "config": o,
                        "case": dict({kk: vv for kk, vv in c.items() if not kk.startswith("_")}, only_state=s, only_conf=k)}
             try:
-                conv, nefc = check_case(L, m, d1, d2, T, state, o, P, witness)
+                conv, nefc = check_case(L, m, d1, d2, T, state, o, P, witness, dirty=d3)
             except drv.MjError as e:
                 P.count("engine_error_skipped")
                 P.count("engine_error:" + str(e).split(":")[0][:40])
                 P.case(nontrivial=False)
                 d1, d2 = m.make_data(), m.make_data()
+                d3 = m.make_data()
                 continue
             P.count("cases")
             P.note_max("nefc", nefc)
